@@ -261,7 +261,13 @@ def _compute_interpolation_weights(inputs, keypoints, lengths):
     Interpolation weights tensor of shape: `(batch_size, units, num_keypoints)`.
   """
   # weights always matches the shape of inputs.
-  weights = (inputs - keypoints) / lengths
+  # A piece of zero length (a keypoint whose softmax share underflowed) is a
+  # jump: dividing by it would give NaN for an input exactly on it.
+  nonzero = lengths > 0
+  weights = tf.where(
+      nonzero,
+      (inputs - keypoints) / tf.where(nonzero, lengths, tf.ones_like(lengths)),
+      tf.cast(inputs > keypoints, inputs.dtype))
   weights = tf.clip_by_value(weights, 0.0, 1.0)
   return _front_pad(weights, 1.0)
 
